@@ -14,11 +14,11 @@ package ratelimiting
 //@ type coalescing
 //@   ghost adds int
 //@   ghost signals int
-//@   lock lock protects pendingEvents timer hasTimer currentDur backoffFactor adds signals
+//@   lock lock protects pendingEvents timer hasTimer currentDur adds signals
 //@   lockinv lock [C09.inv.pending] self.pendingEvents >= 0
 //@   lockinv lock [C09.inv.signals] self.signals >= 0 && self.signals + self.pendingEvents <= self.adds
 //@   lockinv lock [C09.inv.timer] (self.hasTimer.v != 0) <==> (self.timer != nil)
-//@   lockinv lock [C09.inv.backoff] self.currentDur <= self.maxDelay
+//@   lockinv lock [C09.inv.backoff] self.initialDelay <= self.currentDur && self.currentDur <= self.maxDelay
 //@   invariant self.clock != nil && self.initialDelay > 0 && self.initialDelay <= self.maxDelay
 //@   invariant self.maxPendingEvents != nil ==> *self.maxPendingEvents > 0
 
@@ -37,9 +37,9 @@ package ratelimiting
 //@   tags C09
 //@   opt locks=caller
 //@   requires c != nil && heldw(c.lock) && c.timer != nil
-//@   modifies c.pendingEvents, c.currentDur, c.backoffFactor, c.hasTimer.v, c.timer
+//@   modifies c.pendingEvents, c.currentDur, c.hasTimer.v, c.timer
 //@   ensures heldw(c.lock)
-//@   ensures [C09.reset] c.pendingEvents == 0 && c.currentDur == c.initialDelay && c.backoffFactor == 1 && c.hasTimer.v == 0 && c.timer == nil
+//@   ensures [C09.reset] c.pendingEvents == 0 && c.currentDur == c.initialDelay && c.hasTimer.v == 0 && c.timer == nil
 
 //@ func (*coalescing).Add
 //@   tags C09
@@ -73,6 +73,15 @@ package ratelimiting
 //@   ensures [C09.input.window] (at(L, c.hasTimer.v) != 0 && !(c.maxPendingEvents != nil && at(L, c.pendingEvents) >= *c.maxPendingEvents)) ==>
 //@        (at(U, c.pendingEvents) == at(L, c.pendingEvents) && at(U, c.signals) == at(L, c.signals) && at(U, c.currentDur) <= c.maxDelay)
 //@   ensures [C09.input.adds] at(U, c.adds) == at(L, c.adds)
+// "the quiet window doubles from the initial delay up to the maximum while events keep arriving": an Add inside an open
+// window re-arms the timer with min(2 * current, max) -- never less, for every InitialDelay <= MaxDelay
+//@   ensures [C09.input.doubles] (at(L, c.hasTimer.v) != 0 && !(c.maxPendingEvents != nil && at(L, c.pendingEvents) >= *c.maxPendingEvents)) ==>
+//@        at(U, c.currentDur) == min(2 * at(L, c.currentDur), c.maxDelay)
+//@   at before call Reset#0 assert [C09.input.rearm] arg1 == c.currentDur && c.initialDelay <= arg1 && arg1 <= c.maxDelay
+//@   replay template coalescingwindow
+//@   replay val initial = c.initialDelay
+//@   replay val maxd = c.maxDelay
+//@   replay val factor = 0
 //@   at call Lock#0 label L
 //@   at before call Unlock#0 label U
 
